@@ -27,7 +27,7 @@ From Coq Require Import List Ascii ZArith Bool Lia.
 From CGV Require Import Base.PyBase Base.PyVal Base.NxGraph Resolve.GraphOps
      Stereo.EzImpl Stereo.EzDefs Stereo.EzWitness Stereo.EzProofs.
 From CGV Require Import Resolve.Pipeline Resolve.PipelineFull Resolve.CopyProofs Compose.CutModel Compose.CutTables Compose.CutSkeleton
-     Hydro.HydroDefs Dialect.ReturnedAnnot Dialect.DialectImpl Stereo.EzReturned Stereo.EzStrings Stereo.EzStringProofs.
+     Hydro.HydroDefs Dialect.ReturnedAnnot Dialect.DialectImpl Stereo.EzBuilt Stereo.EzReturned Stereo.EzStrings Stereo.EzStringProofs.
 From CGV Require Hydro.Hydrogens Resolve.SortGraphProofs Dialect.ReturnedCar.
 Import ListNotations.
 Open Scope Z_scope.
@@ -188,6 +188,23 @@ Theorem C15_returned_symmetric : forall legacy fd prev car fo, resolve_step_full
   exists l1 a1 a2 l2 c, v = ez_tuple l1 a1 a2 l2 c /\ k = l1 /\ (c = v_cis \/ c = v_trans) /\
                         In (ez_tuple l2 a2 a1 l1 c) (ez_list (fo_mol fo) l2).
 Proof. exact returned_symmetric. Qed.
+(** the hypothesis always holds: relabel_nodes(copy=True), hence sort_nodes_by_attr, builds its result by add_node / add_edge
+    from the empty graph, and every graph built that way is well formed (unique keys and adjacency entries, the same
+    attribute dict in both directions) - for EVERY input graph and mapping *)
+Theorem C15_built_relabel_copy : forall g m, built (relabel_copy g m).
+Proof. exact built_relabel_copy. Qed.
+Theorem C15_built_wf : forall g, built g -> wf_graph g.
+Proof. exact built_wf. Qed.
+Theorem C15_sorted_wf : forall g h, sort_nodes_by_attr g = Ok h -> wf_graph h.
+Proof. exact sorted_wf. Qed.
+Theorem C15_returned_refs_valid_all : forall legacy fd prev car fo, resolve_step_full legacy true fd prev car = Ok fo ->
+  forall k v, In v (ez_list (fo_mol fo) k) -> In v (ez_list (fo_m5 fo) k) \/ tuple_ok (fo_mol fo) k v = true.
+Proof. exact returned_refs_valid_all. Qed.
+Theorem C15_returned_symmetric_all : forall legacy fd prev car fo, resolve_step_full legacy true fd prev car = Ok fo ->
+  forall k v, is_new (fo_m5 fo) (fo_mol fo) k v ->
+  exists l1 a1 a2 l2 c, v = ez_tuple l1 a1 a2 l2 c /\ k = l1 /\ (c = v_cis \/ c = v_trans) /\
+                        In (ez_tuple l2 a2 a1 l1 c) (ez_list (fo_mol fo) l2).
+Proof. exact returned_symmetric_all. Qed.
 (** every stored class of the returned graph is [pair_result] of a pair of the sorted molecule, so the class theorems
     above (C15_table_vs_geom, C15_class_iff_wrong, C15_order_partial, C15_class_exact) speak about what resolve() returns *)
 Theorem C15_returned_class_of_pair : forall legacy fd prev car fo, resolve_step_full legacy true fd prev car = Ok fo ->
@@ -226,6 +243,9 @@ Proof. exact resolve_string_is_step. Qed.
 Theorem C15_string_refs_valid : forall fo s out, resolve_string fo s = Ok out -> wf_graph (fo_m5 out) ->
   forall k v, In v (ez_list (fo_mol out) k) -> In v (ez_list (fo_m5 out) k) \/ tuple_ok (fo_mol out) k v = true.
 Proof. exact string_refs_valid. Qed.
+Theorem C15_string_refs_valid_all : forall fo s out, resolve_string fo s = Ok out ->
+  forall k v, In v (ez_list (fo_mol out) k) -> In v (ez_list (fo_m5 out) k) \/ tuple_ok (fo_mol out) k v = true.
+Proof. exact string_refs_valid_all. Qed.
 Theorem C15_order_refuted_strings :
   exists o1 o2, resolve_string fo0 (S "{[#A][#B]}.{#A=F/C(Cl)=[$],#B=[$]=C(Br)/I}") = Ok o1 /\
                 resolve_string fo0 (S "{[#B][#A]}.{#A=F/C(Cl)=[$],#B=[$]=C(Br)/I}") = Ok o2 /\
@@ -325,6 +345,12 @@ Print Assumptions C15_chiral_stays_merge.
 Print Assumptions C15_chiral_stays_annotate.
 Print Assumptions C15_relabel_copy_attrs.
 Print Assumptions C15_chiral_stays_sort.
+Print Assumptions C15_built_relabel_copy.
+Print Assumptions C15_built_wf.
+Print Assumptions C15_sorted_wf.
+Print Assumptions C15_returned_refs_valid_all.
+Print Assumptions C15_returned_symmetric_all.
+Print Assumptions C15_string_refs_valid_all.
 Print Assumptions C15_returned_refs_valid.
 Print Assumptions C15_returned_symmetric.
 Print Assumptions C15_returned_class_of_pair.
